@@ -6,7 +6,9 @@ Extracted (Python `ast`, never importing sqlframe):
   * ENGINE_TO_PREFIX, NAME_TO_FILE_OVERRIDE (dict literals),
   * activate(): the statement sequence is matched against the shape the model interprets; what may vary
     is extracted: whether sys.modules["pyspark"] / ["pyspark.testing"] / ["pyspark.sql"] are assigned, the
-    config key used for `conn`, an optional pre-import of the engine's `functions` submodule, the
+    statements that store `conn` / `config` as a small IR (`CfgStmt`: the local `config` is rebound to the
+    caller's dict or to a copy, the connection goes into ACTIVATE_CONFIG or into the local dict, the items are
+    copied into ACTIVATE_CONFIG), an optional pre-import of the engine's `functions` submodule, the
     special-name list of the loop, the `Session -> SparkSession` rename, whether a module key is guarded by
     `resolved_files`,
   * deactivate(): a step list  collect(key test) / delete / reimport(caught exception classes) / clearConfig,
@@ -15,6 +17,13 @@ Extracted (Python `ast`, never importing sqlframe):
   * per engine package: the names bound by `from sqlframe.<engine>.<file> import A, B` in __init__.py (in
     order), whether `<file>.py` defines `class A` itself (engine-specific object) or re-exports a shared
     one, and the module files present in the package directory.
+  * (module Gen/ActSession.lean) sqlframe/base/session.py: `_BaseSession.__new__` (the singleton is stored before
+    `__init__` runs), the `conn` branch of `_BaseSession.__init__`, `Builder.getOrCreate` / `_set_session_properties`
+    (statement order: config first, dialects validated before the session is touched); sqlframe/duckdb/session.py:
+    the guard of `DuckDBSession.__init__` and its body as an IR of init steps (default connection, a use of the
+    connection that may raise, the base initialiser that makes the instance look initialised, plain attribute
+    stores), whether its Builder caches the session; sqlframe/standalone/session.py: no own `__init__`, the
+    Builder's `session` ignores the stored keyword arguments.
 Anything outside this sub-language raises Untranslatable.
 """
 from __future__ import annotations
@@ -61,6 +70,51 @@ def _lpairs(xs: t.Iterable[t.Tuple[str, str]]) -> str:
 # ------------------------------------------------------------------------------------------------
 
 
+def _check_signature(fn: ast.FunctionDef, ob: str) -> None:
+    """(engine=None, conn=None, config=None): a mutable default would be shared between calls"""
+    a = fn.args
+    names = [x.arg for x in a.args]
+    if names != ["engine", "conn", "config"] or a.vararg or a.kwarg or a.kwonlyargs or a.posonlyargs:
+        raise Untranslatable(ob, f"unexpected parameters {names}")
+    if len(a.defaults) != 3 or not all(isinstance(d, ast.Constant) and d.value is None for d in a.defaults):
+        raise Untranslatable(ob, "a parameter default is not None: " + ", ".join(_u(d) for d in a.defaults))
+
+
+_COPIES = ("dict(config or {})", "{**(config or {})}", "(config or {}).copy()", "dict(config) if config else {}", "config.copy() if config else {}")
+
+
+def _cfg_stmt(s: ast.stmt, rebound: bool, ob: str) -> t.Tuple[str, t.Any]:
+    """one statement of activate()'s conn/config part -> ("rebind", copy?) | ("connToGlobal", key) | ("connToLocal", key) |
+    ("itemsToGlobal", None).  `rebound`: an earlier statement has made the local `config` a dict (it may be None before)"""
+    text = _u(s)
+    if isinstance(s, ast.Assign) and len(s.targets) == 1 and _u(s.targets[0]) == "config":
+        v = _u(s.value)
+        if v == "config or {}":
+            return ("rebind", False)
+        if v in _COPIES:
+            return ("rebind", True)
+        raise Untranslatable(ob, f"unsupported rebinding of the local config: {text!r}")
+    if isinstance(s, ast.If) and not s.orelse and len(s.body) == 1 and _u(s.test) in ("conn", "conn is not None"):
+        a = s.body[0]
+        if isinstance(a, ast.Assign) and len(a.targets) == 1 and isinstance(a.targets[0], ast.Subscript) and _u(a.value) == "conn":
+            tgt = a.targets[0]
+            if isinstance(tgt.slice, ast.Constant) and isinstance(tgt.slice.value, str):
+                if _u(tgt.value) == "ACTIVATE_CONFIG":
+                    return ("connToGlobal", tgt.slice.value)
+                if _u(tgt.value) == "config":
+                    if not rebound:
+                        raise Untranslatable(ob, f"`{_u(a)}` while config may still be None")
+                    return ("connToLocal", tgt.slice.value)
+        raise Untranslatable(ob, f"unsupported `if conn` body {_u(a)!r}")
+    if text in ("for key, value in (config or {}).items():\n    ACTIVATE_CONFIG[key] = value", "ACTIVATE_CONFIG.update(config or {})"):
+        return ("itemsToGlobal", None)
+    if text in ("for key, value in config.items():\n    ACTIVATE_CONFIG[key] = value", "ACTIVATE_CONFIG.update(config)"):
+        if not rebound:
+            raise Untranslatable(ob, f"`{text}` while config may still be None")
+        return ("itemsToGlobal", None)
+    raise Untranslatable(ob, f"unsupported statement in the conn/config part: {text!r}")
+
+
 def _translate_activate(fn: ast.FunctionDef) -> t.Dict[str, t.Any]:
     ob = OB + ".activate"
     out: t.Dict[str, t.Any] = {
@@ -76,6 +130,7 @@ def _translate_activate(fn: ast.FunctionDef) -> t.Dict[str, t.Any]:
         "rename": None,
         "guardResolved": False,
     }
+    _check_signature(fn, ob)
     body = [s for s in fn.body if not isinstance(s, (ast.Import, ast.ImportFrom))]
     if body and isinstance(body[0], ast.Expr) and isinstance(body[0].value, ast.Constant) and isinstance(body[0].value.value, str):
         body = body[1:]
@@ -108,23 +163,23 @@ def _translate_activate(fn: ast.FunctionDef) -> t.Dict[str, t.Any]:
             if not out[key] and take(text, required=False):
                 out[key] = True
                 progressed = True
-    # if conn: ACTIVATE_CONFIG[<key>] = conn
-    s = cur()
-    if isinstance(s, ast.If) and _u(s.test) == "conn" and not s.orelse and len(s.body) == 1:
-        a = s.body[0]
-        if (
-            isinstance(a, ast.Assign)
-            and isinstance(a.targets[0], ast.Subscript)
-            and _u(a.targets[0].value) == "ACTIVATE_CONFIG"
-            and isinstance(a.targets[0].slice, ast.Constant)
-            and _u(a.value) == "conn"
-        ):
-            out["connKey"] = a.targets[0].slice.value
-            i += 1
-        else:
-            raise Untranslatable(ob, f"unsupported `if conn` body {_u(a)!r}")
-    if take("for key, value in (config or {}).items():\n    ACTIVATE_CONFIG[key] = value", required=False):
-        out["storesConfig"] = True
+    # the statements that store conn / config (everything up to `if not engine: return`)
+    out["cfgStmts"] = []
+    rebound = False
+    while True:
+        s = cur()
+        if s is None or _u(s) == "if not engine:\n    return":
+            break
+        st = _cfg_stmt(s, rebound, ob)
+        if st[0] == "rebind":
+            rebound = True
+        out["cfgStmts"].append(st)
+        i += 1
+    keys = [st[1] for st in out["cfgStmts"] if st[0] in ("connToGlobal", "connToLocal")]
+    if len(set(keys)) > 1:
+        raise Untranslatable(ob, f"the connection is stored under several keys {keys}")
+    out["connKey"] = keys[0] if keys else None
+    out["storesConfig"] = any(st[0] == "itemsToGlobal" for st in out["cfgStmts"])
     take("if not engine:\n    return")
     take("engine = engine.lower()")
     s = cur()
@@ -313,6 +368,7 @@ def _translate_ctx(fn: ast.FunctionDef) -> t.Dict[str, t.Any]:
     ob = OB + ".activate_context"
     if not any(_u(d) == "contextmanager" for d in fn.decorator_list):
         raise Untranslatable(ob, "not decorated with @contextmanager")
+    _check_signature(fn, ob)
     pre: t.List[str] = []
     post: t.List[str] = []
     els: t.List[str] = []
@@ -451,6 +507,14 @@ def _b(x: bool) -> str:
     return "true" if x else "false"
 
 
+def _cfg_lean(st: t.Tuple[str, t.Any]) -> str:
+    if st[0] == "rebind":
+        return f".rebind {_b(st[1])}"
+    if st[0] == "itemsToGlobal":
+        return ".itemsToGlobal"
+    return f".{st[0]} {lean_str(st[1])}"
+
+
 def gen_activate(repo: str) -> str:
     d = extract(repo)
     a = d["activate"]
@@ -473,6 +537,16 @@ def gen_activate(repo: str) -> str:
         "  | deleteCollected",
         "  | reimportCollected (catches : List Exc)",
         "  | clearConfig",
+        "  deriving DecidableEq, Repr, Inhabited",
+        "",
+        "/-- activate()'s statements that store `conn` / `config`: `config = config or {}` (copy = false: the local is the",
+        "    caller's dict whenever that is non-empty) or a copying form; `if conn: ACTIVATE_CONFIG[k] = conn`;",
+        "    `if conn: config[k] = conn`; the items of the local dict copied into ACTIVATE_CONFIG -/",
+        "inductive CfgStmt",
+        "  | rebind (copy : Bool)",
+        "  | connToGlobal (k : String)",
+        "  | connToLocal (k : String)",
+        "  | itemsToGlobal",
         "  deriving DecidableEq, Repr, Inhabited",
         "",
         "inductive CtxCall | activate | deactivate",
@@ -509,6 +583,7 @@ def gen_activate(repo: str) -> str:
         f"def setsSql : Bool := {_b(a['setsSql'])}",
         f"def mockSql : Bool := {_b(a['mockSql'])}",
         "def connKey : Option String := " + (f"some {lean_str(a['connKey'])}" if a["connKey"] else "none"),
+        "def cfgStmts : List CfgStmt := [" + ", ".join(_cfg_lean(st) for st in a["cfgStmts"]) + "]",
         f"def storesConfig : Bool := {_b(a['storesConfig'])}",
         f"def preimportFunctions : Bool := {_b(a['preimportFunctions'])}",
         f"def guardResolved : Bool := {_b(a['guardResolved'])}",
@@ -539,4 +614,248 @@ def gen_activate(repo: str) -> str:
     return "\n".join(L) + "\n"
 
 
-GENERATORS = {"Activate": gen_activate}
+# ------------------------------------------------------------------------------------------------
+# sessions: _BaseSession / Builder / DuckDBSession / StandaloneSession  ->  Gen/ActSession.lean
+# ------------------------------------------------------------------------------------------------
+
+OBS = "Gen.ActSession"
+
+
+def _class(mod: ast.Module, name: str, ob: str) -> ast.ClassDef:
+    for n in mod.body:
+        if isinstance(n, ast.ClassDef) and n.name == name:
+            return n
+    raise Untranslatable(ob, f"class {name} not found")
+
+
+def _method(cls: ast.ClassDef, name: str, ob: str, required: bool = True) -> t.Optional[ast.FunctionDef]:
+    found = [n for n in cls.body if isinstance(n, ast.FunctionDef) and n.name == name]
+    if len(found) == 1:
+        return found[0]
+    if found:
+        raise Untranslatable(ob, f"{cls.name}.{name} defined {len(found)} times")
+    if required:
+        raise Untranslatable(ob, f"{cls.name}.{name} not found")
+    return None
+
+
+def _body(fn: ast.FunctionDef) -> t.List[ast.stmt]:
+    """statements without the docstring and without imports"""
+    b = [x for x in fn.body if not isinstance(x, (ast.Import, ast.ImportFrom))]
+    if b and isinstance(b[0], ast.Expr) and isinstance(b[0].value, ast.Constant) and isinstance(b[0].value.value, str):
+        b = b[1:]
+    return b
+
+
+def _str_const(cls: ast.ClassDef, name: str, ob: str) -> str:
+    for n in cls.body:
+        if isinstance(n, ast.Assign) and len(n.targets) == 1 and _u(n.targets[0]) == name:
+            if isinstance(n.value, ast.Constant) and isinstance(n.value.value, str):
+                return n.value.value
+            raise Untranslatable(ob, f"{cls.name}.{name} is not a string literal")
+    raise Untranslatable(ob, f"{cls.name}.{name} not found")
+
+
+def _has_builder_attr(cls: ast.ClassDef) -> bool:
+    return any(isinstance(n, ast.Assign) and _u(n) == "builder = Builder()" for n in cls.body)
+
+
+def _decorators(fn: ast.FunctionDef) -> t.List[str]:
+    return [_u(d) for d in fn.decorator_list]
+
+
+def _init_steps(body: t.List[ast.stmt], ob: str) -> t.List[str]:
+    """the guarded body of DuckDBSession.__init__ as InitStep constructors"""
+    steps: t.List[str] = []
+    for s in body:
+        text = _u(s)
+        if text == "conn = conn or duckdb.connect()":
+            steps.append(".defaultConn")
+        elif text == "super().__init__(conn, *args, **kwargs)":
+            steps.append(".superInit false")
+        elif text == "super().__init__(conn or duckdb.connect(), *args, **kwargs)":
+            steps.append(".superInit true")
+        elif isinstance(s, ast.Assign) and len(s.targets) == 1 and isinstance(s.targets[0], ast.Attribute) and _u(s.targets[0].value) == "self" and isinstance(s.value, ast.Constant):
+            if s.targets[0].attr in ("_connection", "_conn"):
+                raise Untranslatable(ob, f"direct store to the connection attribute: {text!r}")
+            steps.append(f".setAttr {lean_str(s.targets[0].attr)}")
+        elif isinstance(s, (ast.Try, ast.Expr)):
+            # a use of the connection: <conn | self._conn>.<method>(...), optionally inside try/except-pass
+            caught: t.List[str] = []
+            call = s
+            if isinstance(s, ast.Try):
+                if s.orelse or s.finalbody or len(s.body) != 1:
+                    raise Untranslatable(ob, f"unsupported try statement {text[:60]!r}")
+                for h in s.handlers:
+                    if not (len(h.body) == 1 and isinstance(h.body[0], ast.Pass)):
+                        raise Untranslatable(ob, "an except clause of __init__ does more than `pass`")
+                    if h.type is None:
+                        caught.append("baseException")
+                        continue
+                    for nm in h.type.elts if isinstance(h.type, ast.Tuple) else [h.type]:
+                        if _u(nm) not in EXC:
+                            raise Untranslatable(ob, f"unknown exception class {_u(nm)!r}")
+                        caught.append(EXC[_u(nm)])
+                call = s.body[0]
+            if not (isinstance(call, ast.Expr) and isinstance(call.value, ast.Call) and isinstance(call.value.func, ast.Attribute)):
+                raise Untranslatable(ob, f"unsupported statement {text[:60]!r}")
+            recv = _u(call.value.func.value)
+            if recv not in ("conn", "self._conn"):
+                raise Untranslatable(ob, f"unsupported receiver {recv!r} in {text[:60]!r}")
+            steps.append(f".useConn {_b(recv == 'self._conn')} [" + ", ".join("." + c for c in caught) + "]")
+        else:
+            raise Untranslatable(ob, f"unsupported statement {text[:80]!r}")
+    return steps
+
+
+def extract_session(repo: str) -> t.Dict[str, t.Any]:
+    out: t.Dict[str, t.Any] = {}
+    # ---- base
+    ob = OBS + ".base"
+    base = _class(parse(repo, "sqlframe/base/session.py"), "_BaseSession", ob)
+    if not any(isinstance(n, ast.Assign) and _u(n) == "_instance = None" for n in base.body):
+        raise Untranslatable(ob, "`_instance = None` not found")
+    new = _method(base, "__new__", ob)
+    if [_u(x) for x in _body(new)] != ["if _BaseSession._instance is None:\n    _BaseSession._instance = super().__new__(cls)", "return _BaseSession._instance"]:
+        raise Untranslatable(ob, "__new__ no longer has the shape `if _instance is None: _instance = super().__new__(cls); return _instance`")
+    init = _method(base, "__init__", ob)
+    if [a.arg for a in init.args.args][:2] != ["self", "conn"]:
+        raise Untranslatable(ob, "__init__'s first parameter is not conn")
+    conn_stmts = [x for x in _body(init) if "_connection" in _u(x)]
+    if [_u(x) for x in conn_stmts] != ["if not self._has_connection or conn:\n    self._connection = conn"]:
+        raise Untranslatable(ob, "__init__ stores the connection in an unsupported way: " + "; ".join(_u(x)[:60] for x in conn_stmts))
+    hc = _method(base, "_has_connection", ob)
+    if [_u(x) for x in _body(hc)] != ["return hasattr(self, '_connection') and bool(self._connection)"] or "property" not in _decorators(hc):
+        raise Untranslatable(ob, "_has_connection changed")
+    cp = _method(base, "_conn", ob)
+    if [_u(x) for x in _body(cp)] != ["if self._connection is None:\n    raise ValueError('Connection not set')", "return self._connection"] or "property" not in _decorators(cp):
+        raise Untranslatable(ob, "the _conn property changed")
+    # ---- builder
+    ob = OBS + ".Builder"
+    bld = _class(ast.Module(body=base.body, type_ignores=[]), "Builder", ob)
+    out["connKey"] = _str_const(bld, "SQLFRAME_CONN_KEY", ob)
+    out["dialectKey"] = _str_const(bld, "SQLFRAME_INPUT_DIALECT_KEY", ob)
+    out["defaultDialect"] = _str_const(bld, "DEFAULT_INPUT_DIALECT", ob)
+    if not _has_builder_attr(base):
+        raise Untranslatable(ob, "`builder = Builder()` is no longer a class attribute of _BaseSession")
+    goc = _method(bld, "getOrCreate", ob)
+    if [_u(x) for x in _body(goc)] != ["for k, v in ACTIVATE_CONFIG.items():\n    self._set_config(k, v)", "self._set_session_properties()", "return self.session"]:
+        raise Untranslatable(ob, "getOrCreate changed: " + " | ".join(_u(x)[:50] for x in _body(goc)))
+    ssp = [_u(x) for x in _body(_method(bld, "_set_session_properties", ob))]
+    want_first = "self.session.input_dialect = Dialect.get_or_raise(self.input_dialect)"
+    if not ssp or ssp[0] != want_first:
+        raise Untranslatable(ob, "_set_session_properties no longer starts with the input-dialect assignment (dialect validated before the session is created)")
+    if ssp[-1] != "if hasattr(self.session, '_connection') and (not self.session._connection):\n    self.session._connection = self._conn":
+        raise Untranslatable(ob, "_set_session_properties: the connection fallback changed")
+    binit = [_u(x) for x in _body(_method(bld, "__init__", ob))]
+    if "self._conn = None" not in binit or "self._session_kwargs = {}" not in binit or "self.input_dialect = self.DEFAULT_INPUT_DIALECT" not in binit:
+        raise Untranslatable(ob, "Builder.__init__ changed")
+    sc = _method(bld, "_set_config", ob)
+    sc_if = [x for x in _body(sc) if isinstance(x, ast.If) and _u(x.test) == "value is not None"]
+    if len(sc_if) != 1:
+        raise Untranslatable(ob, "_set_config: `if value is not None` not found")
+    chain = sc_if[0].body
+    pairs = []
+    node: t.Any = chain[0] if len(chain) == 1 else None
+    while isinstance(node, ast.If):
+        pairs.append((_u(node.test), [_u(x) for x in node.body]))
+        node = node.orelse[0] if len(node.orelse) == 1 and isinstance(node.orelse[0], ast.If) else None
+    d = dict((k, v) for k, v in pairs)
+    if d.get("key == self.SQLFRAME_INPUT_DIALECT_KEY") != ["self.input_dialect = value"] or d.get("key == self.SQLFRAME_CONN_KEY") != ["self._session_kwargs['conn'] = value"]:
+        raise Untranslatable(ob, "_set_config no longer maps the dialect key to input_dialect and the conn key to _session_kwargs['conn']")
+    # ---- duckdb
+    ob = OBS + ".duckdb"
+    dmod = parse(repo, "sqlframe/duckdb/session.py")
+    duck = _class(dmod, "DuckDBSession", ob)
+    if _method(duck, "__new__", ob, required=False) is not None:
+        raise Untranslatable(ob, "DuckDBSession defines __new__")
+    dinit = _method(duck, "__init__", ob)
+    a = dinit.args
+    if [x.arg for x in a.args] != ["self", "conn"] or not (len(a.defaults) == 1 and isinstance(a.defaults[0], ast.Constant) and a.defaults[0].value is None):
+        raise Untranslatable(ob, "__init__ parameters changed")
+    db = _body(dinit)
+    if not (len(db) == 1 and isinstance(db[0], ast.If) and not db[0].orelse):
+        raise Untranslatable(ob, "__init__ is not a single guarded block")
+    g = db[0].test
+    if not (isinstance(g, ast.UnaryOp) and isinstance(g.op, ast.Not) and isinstance(g.operand, ast.Call) and _u(g.operand.func) == "hasattr" and len(g.operand.args) == 2 and _u(g.operand.args[0]) == "self" and isinstance(g.operand.args[1], ast.Constant)):
+        raise Untranslatable(ob, f"unsupported guard {_u(g)!r}")
+    out["duckGuard"] = g.operand.args[1].value
+    if out["duckGuard"] not in ("_conn", "_connection"):
+        raise Untranslatable(ob, f"the guard tests the attribute {out['duckGuard']!r}")
+    out["duckInit"] = _init_steps(db[0].body, ob)
+    if sum(1 for x in out["duckInit"] if x.startswith(".superInit")) != 1:
+        raise Untranslatable(ob, "the base initialiser is not called exactly once")
+    dbl = _class(ast.Module(body=duck.body, type_ignores=[]), "Builder", ob)
+    sess = _method(dbl, "session", ob)
+    if [_u(x) for x in _body(sess)] != ["return DuckDBSession(**self._session_kwargs)"]:
+        raise Untranslatable(ob, "Builder.session changed")
+    decs = _decorators(sess)
+    if decs not in (["cached_property"], ["property"]):
+        raise Untranslatable(ob, f"Builder.session decorators {decs}")
+    out["duckCaches"] = decs == ["cached_property"]
+    if _method(dbl, "_set_session_properties", ob, required=False) is not None or _method(dbl, "_set_config", ob, required=False) is not None:
+        raise Untranslatable(ob, "DuckDBSession.Builder overrides _set_config / _set_session_properties")
+    dgoc = _method(dbl, "getOrCreate", ob, required=False)
+    if dgoc is not None and [_u(x) for x in _body(dgoc)] != ["return super().getOrCreate()"]:
+        raise Untranslatable(ob, "DuckDBSession.Builder.getOrCreate changed")
+    if not _has_builder_attr(duck):
+        raise Untranslatable(ob, "`builder = Builder()` is no longer a class attribute")
+    # ---- standalone
+    ob = OBS + ".standalone"
+    sa = _class(parse(repo, "sqlframe/standalone/session.py"), "StandaloneSession", ob)
+    if _method(sa, "__init__", ob, required=False) is not None or _method(sa, "__new__", ob, required=False) is not None:
+        raise Untranslatable(ob, "StandaloneSession defines __init__ / __new__")
+    sbl = _class(ast.Module(body=sa.body, type_ignores=[]), "Builder", ob)
+    ss = _method(sbl, "session", ob)
+    if [_u(x) for x in _body(ss)] != ["return StandaloneSession()"] or _decorators(ss) != ["property"]:
+        raise Untranslatable(ob, "Builder.session changed")
+    sgoc = _method(sbl, "getOrCreate", ob, required=False)
+    if sgoc is not None and [_u(x) for x in _body(sgoc)] != ["return super().getOrCreate()"]:
+        raise Untranslatable(ob, "StandaloneSession.Builder.getOrCreate changed")
+    if _method(sbl, "_set_session_properties", ob, required=False) is not None or _method(sbl, "_set_config", ob, required=False) is not None:
+        raise Untranslatable(ob, "StandaloneSession.Builder overrides _set_config / _set_session_properties")
+    if not _has_builder_attr(sa):
+        raise Untranslatable(ob, "`builder = Builder()` is no longer a class attribute")
+    return out
+
+
+def gen_act_session(repo: str) -> str:
+    d = extract_session(repo)
+    L = [
+        HEADER,
+        "import SqlframeModel.Gen.Activate",
+        "",
+        "namespace Sqlframe.Gen.ActS",
+        "open Sqlframe.Gen.Act",
+        "",
+        "/-- one statement of the guarded body of `DuckDBSession.__init__`: `conn = conn or duckdb.connect()`; a call on the",
+        "    connection (`conn.f(…)` or, viaSelf, `self._conn.f(…)`) inside `try … except <caught>: pass`; the base",
+        "    initialiser `super().__init__(conn [or duckdb.connect()], …)` — it sets `_connection`, the attribute the",
+        "    guard looks at —; a plain `self.<n> = <constant>` -/",
+        "inductive InitStep",
+        "  | defaultConn",
+        "  | useConn (viaSelf : Bool) (caught : List Exc)",
+        "  | superInit (defaulted : Bool)",
+        "  | setAttr (n : String)",
+        "  deriving DecidableEq, Repr, Inhabited",
+        "",
+        "/-- `_BaseSession.__new__` stores the new object in `_BaseSession._instance` before `__init__` runs (shape checked) -/",
+        "def singletonInNew : Bool := true",
+        "/-- `_BaseSession.__init__`: `if not self._has_connection or conn: self._connection = conn` (shape checked) -/",
+        "def baseInitKeepsConn : Bool := true",
+        "/-- `Builder.getOrCreate`: every ACTIVATE_CONFIG item goes through `_set_config` first, then",
+        "    `_set_session_properties` validates the dialect before it touches `self.session` (shape checked) -/",
+        "def configBeforeSession : Bool := true",
+        f"def builderConnKey : String := {lean_str(d['connKey'])}",
+        f"def builderDialectKey : String := {lean_str(d['dialectKey'])}",
+        f"def defaultInputDialect : String := {lean_str(d['defaultDialect'])}",
+        f"def duckInitGuard : String := {lean_str(d['duckGuard'])}",
+        "def duckInit : List InitStep := [" + ", ".join(d["duckInit"]) + "]",
+        f"def duckBuilderCaches : Bool := {_b(d['duckCaches'])}",
+        "",
+        "end Sqlframe.Gen.ActS",
+    ]
+    return "\n".join(L) + "\n"
+
+
+GENERATORS = {"Activate": gen_activate, "ActSession": gen_act_session}
